@@ -38,6 +38,8 @@ RESOURCES = "cpu:2,gpu:2"
 def gen_cases(tier, seed):
     n = 48 if tier == "quick" else 1200
     cases = [{"id": f"c01-seed-{k}", "seed": seed, "scenario": k} for k in SEED_SCENARIOS]
+    cases += [{"id": f"c01-seed-deferred_subplan_moved_output-{i}", "seed": seed * 131 + 1 + i,
+               "scenario": "deferred_subplan_moved_output"} for i in range(5 if tier == "quick" else 40)]
     cases += [{"id": f"c01-{seed}-{i}", "seed": seed * 9973 + i, "nhist": 4} for i in range(n)]
     return cases
 
@@ -283,17 +285,31 @@ def classify_graph_diff(only_i, only_s):
     return "state or relation of a node differs from the from-scratch graph"
 
 
-def run_history(ctx, rng, spec, phases, final_cfg=None):
+def rand_schedule(rng, cfg, force=None):
+    """A schedule for one build: the policy that releases the actions of the simulated steps, and
+    (sometimes) hash threads of the director that are slow to start."""
+    force = force or {}
+    cfg = dict(cfg)
+    if "njob" in force:
+        cfg["njob"] = force["njob"]
+    policy = rng.choice(force.get("policies", ["free", "free", "jitter", "serial"]))
+    if rng.random() < force.get("thread_delay", 0.25):
+        cfg["thread_delay"] = {"p": rng.choice([0.3, 1.0]), "max": 0.02, "seed": rng.randrange(1 << 30)}
+    return cfg, policy, rng.randrange(1 << 30)
+
+
+def run_history(ctx, rng, spec, phases, final_cfg=None, force=None):
     from vmon import gen, harness as H, invariants as I
 
     Reach.install()
     cfgs = []
     files = gen.render(spec)
     env = dict(spec.get("env", {}))
-    cfg = rand_cfg(rng)
-    cfgs.append(cfg)
+    cfg, policy, cseed = rand_schedule(rng, rand_cfg(rng), force)
+    cfgs.append([cfg, policy, cseed])
     mon = I.make_monitor()
-    b = H.run_build(cfg, monitors=[mon], env=env)
+    b = H.run_build(cfg, ctl=H.Controller(policy, cseed), monitors=[mon], env=env)
+    ctx["counters"]["builds_" + policy] = ctx["counters"].get("builds_" + policy, 0) + 1
     ctx["collect"](mon, b, "initial build")
     edit_kinds = []
     for k, phase in enumerate(phases):
@@ -302,9 +318,13 @@ def run_history(ctx, rng, spec, phases, final_cfg=None):
         env = dict(cur.get("env", {}))
         last = k == len(phases) - 1
         cfg = final_cfg or rand_cfg(rng, final=True) if last else rand_cfg(rng)
-        cfgs.append(cfg)
+        cfg, policy, cseed = rand_schedule(rng, cfg, force)
+        cfgs.append([cfg, policy, cseed])
         mon = I.make_monitor()
-        b = H.run_build(cfg, monitors=[mon], env=env)
+        b = H.run_build(cfg, ctl=H.Controller(policy, cseed), monitors=[mon], env=env)
+        ctx["counters"]["builds_" + policy] = ctx["counters"].get("builds_" + policy, 0) + 1
+        if b.thread_delays:
+            ctx["counters"]["builds_with_slow_hash_threads"] = ctx["counters"].get("builds_with_slow_hash_threads", 0) + 1
         ctx["collect"](mon, b, f"build {k + 1}")
         edit_kinds.append(tuple(e[0] for e in phase["edits"]))
     final_spec = phases[-1]["spec"] if phases else spec
@@ -400,7 +420,36 @@ def scenario_move_output():
                   {"edits": [["move_output", "B"]], "spec": p3}]
 
 
+def scenario_deferred_subplan_moved_output():
+    """A sub-plan defines a slow step X, then amends the output of a slow step L<k> that is new in
+    every build, so the sub-plan is deferred and runs a second time while X is running.  X's output
+    moves with every edit, so X is created again under its label with another output, and is then
+    detached once more (by the second run of the sub-plan) while its command runs."""
+    def make(k, xout):
+        steps = {
+            f"L{k}": {"kind": "do", "salt": "", "inp": ["src/a.txt"], "out": [f"out/late{k}.txt"], "gates_before": 8},
+            "X": {"kind": "prog", "inp": ["src/b.txt"], "out": [xout], "gates_before": 14},
+            "C": {"kind": "do", "salt": "", "inp": ["src/b.txt"], "out": ["out/c.txt"]},
+        }
+        return {"sources": {"src/a.txt": "a\n", "src/b.txt": "b\n"}, "env": {}, "steps": steps,
+                "order": [f"L{k}", "X", "C"],
+                "plans": {".": [["static", ["src/a.txt", "src/b.txt", "progs/X.json", "sub/plan.py"]],
+                                ["step", f"L{k}"], ["plan", "sub"]],
+                          "sub": [["step", "X"], ["raw", {"a": "gate", "name": "s0"}], ["step", "C"],
+                                  ["raw", {"a": "gate", "name": "s1"}],
+                                  ["raw", {"a": "amend", "inp": [f"out/late{k}.txt"]}],
+                                  ["raw", {"a": "read", "path": f"out/late{k}.txt"}]]}}
+    spec = make(0, "out/x.txt")
+    return spec, [{"edits": [["drop_step", "L0"], ["add_step", "L1"], ["move_output", "X"]], "spec": make(1, "out/moved/x.txt")},
+                  {"edits": [["drop_step", "L1"], ["add_step", "L2"], ["move_output", "X"]], "spec": make(2, "out/x.txt")}]
+
+
+SCENARIO_FORCE = {
+    "deferred_subplan_moved_output": {"njob": 4, "policies": ["serial", "serial", "jitter"], "thread_delay": 0.6},
+}
+
 SEED_SCENARIOS = {
+    "deferred_subplan_moved_output": scenario_deferred_subplan_moved_output,
     "subplan_readd": scenario_subplan_readd,
     "optional_amend_dropped": scenario_optional_amend_dropped,
     "recycle_chain": scenario_recycle_chain,
@@ -459,7 +508,8 @@ def run_case(case):
                                     sorted({st.get("need") for st in spec["steps"].values()})])
             witness = {"spec": spec, "phases": [p["edits"] for p in phases], "case": case["id"],
                        "final_spec": phases[-1]["spec"] if phases else spec}
-            b, final_spec, env, edit_kinds, cfgs = run_history(ctx, rng, spec, phases)
+            b, final_spec, env, edit_kinds, cfgs = run_history(
+                ctx, rng, spec, phases, force=SCENARIO_FORCE.get(case.get("scenario")))
             witness["configs"] = cfgs
             counters["histories"] += 1
             counters["evaluations"] += 1
@@ -515,8 +565,9 @@ def is_recycled_lost_hash():
 
 
 def pending_only_below_reverted_optional():
-    """In the current directory's graph: every PENDING step that is not optional itself has a
-    PENDING optional step in its creator chain."""
+    """In the current directory's graph: every PENDING step that is not optional itself has, in
+    its creator chain, an optional step that nothing needs (need line "OPTIONAL", not raised by
+    sinks)."""
     text, _ = H.graph_text(attached_only=True)
     g = H.parse_graph(text)
 
@@ -539,7 +590,10 @@ def pending_only_below_reverted_optional():
         cur, ok = creator(head), False
         while cur in g and cur.startswith("step:"):
             cp = props(cur)
-            if cp.get("state") == "PENDING" and cp.get("need", "").startswith("OPTIONAL"):
+            # an optional step that nothing needs any more: reverted already (PENDING), or still
+            # done because the very step it left behind keeps every build incomplete, so that
+            # the cleanup that would revert it never runs
+            if cp.get("need", "").startswith("OPTIONAL"):
                 ok = True
                 break
             cur = creator(cur)
